@@ -12,7 +12,7 @@ from harness import codec_common as cc
 
 META = {
     "level": "proof",
-    "tables": ["GenGroups", "GenEnums"],
+    "tables": ["GenGroups", "GenEnums", "GenConst"],
     "files": ["asyncfix/codec.py", "asyncfix/message.py", "asyncfix/protocol/protocol_fix44.py", "asyncfix/session.py"],
     "rule": "messages generated from the regenerated repeating-group table (0-2 groups, 1-3 items, optional members, nesting to table depth, "
             "values over printable single-byte text incl. '=', '10=', '9=', '8=FIX.' look-alikes) in allocate / raw / PossDup / SequenceReset modes, "
